@@ -316,6 +316,23 @@ def check_model(acc, kind, subj, tier):
                                   sum(v is not None for v in lab))
                     break
             acc.outcome((key, ref[1].tobytes() if ref[0] == "ok" else ref[1]))
+            # the same call sequence repeated on the SAME object: fit re-derives the generator from the seed, so the second round reproduces the first
+            if kind == "clf" and ref[0] == "ok":
+                with warnings.catch_warnings():
+                    warnings.simplefilter("ignore")
+                    try:
+                        est = subj.make(classes=[0, 1], random_state=sd)
+                        rounds = []
+                        for _ in range(2):
+                            est.fit(X, y)
+                            rounds.append((np.asarray(est.predict_proba(X), dtype=float), np.asarray(est.predict(X), dtype=float)))
+                        acc.transitions += 4
+                        if not (np.array_equal(rounds[0][0], rounds[1][0], equal_nan=True) and np.array_equal(rounds[0][1], rounds[1][1], equal_nan=True)):
+                            acc.violation(subj.name, "refit_of_the_same_object_differs", "fit/predict_proba/predict repeated on one object with an integer seed: "
+                                          "first round %s, second round %s" % (rounds[0][1].tolist(), rounds[1][1].tolist()), wit, {}, rep,
+                                          sum(v is not None for v in lab))
+                    except Exception:
+                        pass
     acc.sample({"estimator": subj.name, "schedules": "global generator re-seeded before fit and before predict, all 9 assignments"}, limit=1)
 
 
